@@ -413,18 +413,31 @@ impl Interp {
             a.vars.insert(v.decl, x);
         }
     }
-    /// value of a block in value position: the value of its last statement if that is an expression statement
+    /// value of a block in value position: the value of its last statement if that is an expression statement; a
+    /// non-empty block statement in last position is transparent (its own last statement decides, recursively)
     fn block_value(&mut self, b: &[RStmt]) -> R<V> {
         let mut last = V::Null;
         for (i, s) in b.iter().enumerate() {
-            let v = self.stmt(s)?;
-            if i + 1 == b.len() {
-                last = match s {
-                    RStmt::Expr(_) => v,
-                    // U9: a block statement (or `{}`) in last position
-                    RStmt::Block(_) => V::Unspec,
-                    _ => V::Null,
-                };
+            let is_last = i + 1 == b.len();
+            match s {
+                RStmt::Block(inner) if is_last => {
+                    self.tick()?;
+                    self.nesting += 1;
+                    // U9 (narrowed): only `{}` in last position is left open (the pinned compiler emits nothing for it, so
+                    // the value of the statement before it shows through)
+                    let r = if inner.is_empty() { Ok(V::Unspec) } else { self.block_value(inner) };
+                    self.nesting -= 1;
+                    last = r?;
+                }
+                _ => {
+                    let v = self.stmt(s)?;
+                    if is_last {
+                        last = match s {
+                            RStmt::Expr(_) => v,
+                            _ => V::Null,
+                        };
+                    }
+                }
             }
         }
         Ok(last)
